@@ -216,4 +216,5 @@ func c04(p *model.Prog, r *report.Result) {
 	}, Target: func(x ssa.Instruction) bool { _, ok := x.(*ssa.Return); return ok }}.Find(runLoop)
 	r.Check(bad == nil, "C04.ERR", fkey(runLoop, "dispose", "every-path"), p.Pos(runLoop.Pos()), "the connection is disposed on every exit of RunLoop", "RunLoop can return without disposing the connection")
 	c04Writer(p, r)
+	c04Buf(p, r)
 }
